@@ -15,7 +15,7 @@ import driver, spec as specmod
 from ast2c import ExtractionBreak
 
 VERIF = driver.VERIF
-BCAP = 5
+BCAP = 4
 
 
 def write_replay(prop, unit, res, body):
@@ -40,6 +40,8 @@ def trace_values(out):
 
 
 def bounded_recheck(unit, units, outdir):
+    global BCAP
+    BCAP = int(unit.get('triage_cap', 4))
     """contract without loop contracts, capacity BCAP, unwinding; returns (verdict, log)"""
     has_ghost = any(k.startswith('ghost ') for k in unit['sections'])
     for drop_ghost in (False, True):
